@@ -35,6 +35,9 @@ def parse (t : List String) : Option Op :=
 
 def stepLine (d : DSt) (t : List String) : DSt × String :=
   match t with
+  | ["reloc"] =>
+      -- C14: relocating the memory block is invisible: the model state has no addresses
+      (d, "ok d=[]")
   | "new" :: fl :: cap :: rest =>
       -- FixedSizeQueue<T, 0> and RelocatableQueue with capacity 0 cannot be constructed
       -- (zero-sized allocation from the bump allocator is refused): reported as err:alloc, the case ends
